@@ -8,23 +8,25 @@ VERIF = Path(__file__).resolve().parents[2]
 
 # coverage added by the coverage-guided pass (DESIGN.md 10.5) and after round 5 of the seeded changes (10.3)
 ADDED5 = {
-    "C01": "cube-to-cube maps, module-level grid_*/cube_* functions, Grid/Cube equality, Cube constructors, anchor laws incl. one-sample axes, matrix-level path independence",
-    "C02": "integer index arrays through GridAttrs against ITK's integer-index API",
+    "C15": "mask / weight tensors of four dtypes in the write-set sweep",
+    "C14": "subdivision along named axes",
+    "C01": "cube-to-cube maps, module-level grid_*/cube_* functions, Grid/Cube equality, Cube constructors, anchor laws incl. one-sample axes, matrix-level path independence, argument-less transform()/inverse_transform()",
+    "C02": "integer index arrays through GridAttrs against ITK's integer-index API, varargs setters",
     "C03": "argument forms of resample (min/max, positional), pad/crop (sequence, margin=int, zero)",
     "C04": "convolution (four kernel forms, same / explicit-margin padding), argument forms of the image operations, selections along the batch dimension",
     "C05": "dict / data= / mask= input forms and align_centers of the sampling modules, nearest mode named in every way",
     "C06": "transformer defaults, DisplacementFieldTransform.fit, generic transform with dict / predicted parameters",
     "C08": "operand chains of length 3 and 4, Euler angles of integer dtype / Python numbers",
     "C09": "coarse-parameter displacement fields with fit() bound to the set-data action; scripted inverse histories of the generic transform with predicted parameters",
-    "C10": "broadcasting forms of warp_image / sample_flow / warp_grid",
+    "C10": "broadcasting forms of warp_image / sample_flow / warp_grid, default axes follow the grid's flag",
     "C11": "tensor-valued scale and module re-use after inverse",
     "C12": "Curl module, integer-typed fields",
     "C13": "one spacing row per field",
-    "C16": "LCC/WLCC/NCC/MI/NMI modules against the functional forms, target / weight forms of the Tversky family, absent classes",
-    "C17": "inverse consistency with masks of any non-zero values / integer margin / sum, GradLoss(q=None)",
+    "C16": "LCC/WLCC/NCC/MI/NMI modules against the functional forms, target / weight forms of the Tversky family, absent classes, explicit norm with images",
+    "C17": "inverse consistency with masks of any non-zero values / integer margin / sum, GradLoss(q=None), default grid of inverse_consistency_loss",
     "C18": "reader argument forms (Path, bytes, open file)",
-    "C19": "from_images / append / inner ellipsis, item-and-channel selection in one index (selchan)",
-    "C20": "rotation-representation conversions, point set distances w.r.t. every point set",
+    "C19": "from_images / append / inner ellipsis, item-and-channel selection in one index (selchan), one-item from_images",
+    "C20": "rotation-representation conversions, point set distances w.r.t. every point set, coarse dense fields with resize=False",
 }
 
 # coverage added after round 4 of the seeded changes (DESIGN.md 10.3), appended to the level text
